@@ -112,27 +112,20 @@ Definition token_byte (b : byte) : bool :=          (* bytes the reader keeps in
   match act T03 MToken b with ASkip | ATokenStart => true | _ => false end.
 Definition token_first (b : byte) : bool :=
   match act T03 MValue b with ATokenStart => true | _ => false end.
-Definition bare_ok (name : list byte) : bool :=      (* a name printed without |...| reads back as that symbol *)
-  match name with
-  | [] => false
-  | b :: r => token_first b && forallb token_byte r
-  end && negb (is_t name).
-(* A name that looks like a number is no longer a guard matter: Symbol.needPipes matches the name against the
-   reader's number patterns and puts such names between bars (repo_fixes C03-3); the pretty printer writes
-   symbols inside lists as it writes them elsewhere (repo_fixes C03-4); between bars | \ and control bytes are
-   escaped (repo_fixes C03-5), so every ASCII name that gets bars is inside the guard;
-   keywords get bars like other symbols (repo_fixes C03-6). *)
-(* The reader takes bytes above 0x7f as token constituents (repo_fixes C03-8), so non-ASCII names are printed and
-   read like any other.  The model's caseName is the ASCII one: a name with bytes above 0x7f is inside the guard
-   when *print-case* is nil (no conversion); with a conversion in force only ASCII names are (strings.ToUpper /
-   ToLower on cased non-ASCII letters are outside the model). *)
+(* Symbols.  Symbol.needPipes (repo_fixes C03-3 ... C03-11) puts between bars every name the reader would not give
+   back as that symbol when written bare: a byte the token modes reject, the spelling of a number, the lone dot,
+   nil in any case, a leading @; between bars | \ and control bytes are escaped (C03-5); keywords follow the
+   same rule (C03-6); the pretty printer writes symbols like the flat one (C03-4); the reader takes bytes above
+   0x7f as token constituents (C03-8).  What is left of the guard:
+   - names are byte strings;
+   - the model's caseName is the ASCII one: a name with bytes above 0x7f is inside the guard when *print-case* is
+     nil (no conversion); with a conversion in force only ASCII names are (strings.ToUpper / ToLower on cased
+     non-ASCII letters are outside the model);
+   - the symbol named t (or T) is printed like the constant t: known finding C03-symbol-named-t, pinned by
+     slip's own tests. *)
 Definition case_is_none (c : pcfg) : bool := match p_case c with CNone => true | _ => false end.
 Definition sym_ok (c : pcfg) (name : list byte) : bool :=
-  forallb (fun b => (b <? 256)%N) name && (forallb (fun b => (b <? 128)%N) name || case_is_none c) &&
-  match name with
-  | [] => true
-  | _ => if need_pipes name then true else bare_ok name
-  end.
+  forallb (fun b => (b <? 256)%N) name && (forallb (fun b => (b <? 128)%N) name || case_is_none c) && negb (is_t name).
 
 Definition float_ok (k : fkind) (txt : list byte) : bool :=
   match resolve_token txt with OFlt k' _ => fkind_eqb k k' | _ => false end &&
